@@ -154,7 +154,7 @@ def status_strings(spec, req):
         if len(res) > 1:
             from_out(res[1])
     for _, eh in spec['errh']:
-        if eh[0] == 'c':
+        if eh[0] in ('c', 'mut'):
             from_out(eh[1])
     if req['route'][0] == 'h':
         from_effs(req['route'][1])
@@ -576,15 +576,23 @@ class C03(Check):
             spec = g.app() if rng.random() < .6 else dict(before=[], after=[], errh=[])
             spec.pop('catchall', None)
             spec['shared'] = dict(c09.SHARED)
-            k = rng.choice(repeatable)
-            kinds = [k, k] if rng.random() < .6 else [k, rng.choice(others), k]
+            if rng.random() < .3:
+                spec['errors_map'] = dict(c09.CUSTOM_ERRORS)    # long-lived error objects of the application
+            more = []
+            if rng.random() < .25:
+                spec['default_app'] = True
+                more = c09.HELPER_KINDS
+            k = rng.choice(repeatable + ['custom-status'] + list(more[:1]) + list(more[-2:]))
+            kinds = [k, k] if rng.random() < .4 else [k, k, k] if rng.random() < .5 else [k, rng.choice(others + list(more)), k]
             if rng.random() < .2:
                 kinds = [rng.choice(repeatable + others) for _ in range(rng.choice([2, 3]))]
             hist = []
             for i, kind in enumerate(kinds):
                 c09.RAISE_SINGLETONS[0] = True
                 try:
-                    h = c09.gen_hreq(g, rng, i + 1, kind, spec)
+                    # the same object rendered as HTML and as JSON alternately
+                    h = c09.gen_hreq(g, rng, i + 1, kind, spec, force=dict(json=(i + len(out)) % 2 == 0)
+                                     if kind == k and rng.random() < .7 else None)
                 finally:
                     c09.RAISE_SINGLETONS[0] = False
                 # URLs of clearly different length, alternating representations
@@ -637,7 +645,7 @@ class C03(Check):
             if len(res) > 1:
                 outs.append(res[1])
         for _, eh in spec['errh']:
-            if eh[0] == 'c':
+            if eh[0] in ('c', 'mut'):
                 outs.append(eh[1])
         if req['route'][0] == 'h' and len(req['route'][2]) > 1:
             outs.append(req['route'][2][1])
@@ -653,7 +661,7 @@ class C03(Check):
                 return any(i[0] in ('y', 'rr') and from_out(i[1]) for i in o[3])
             return False
         outs = [res[1] for _, res in spec['before'] + spec['after'] if len(res) > 1]
-        outs += [eh[1] for _, eh in spec['errh'] if eh[0] == 'c']
+        outs += [eh[1] for _, eh in spec['errh'] if eh[0] in ('c', 'mut')]
         if req['route'][0] == 'h' and len(req['route'][2]) > 1:
             outs.append(req['route'][2][1])
         return any(from_out(o) for o in outs)
